@@ -294,7 +294,9 @@ fn run_tm(prop: &str, tier: &str) -> i32 {
     let mut out = e5run::run(prop, tier, nshards(), Duration::from_secs(cap));
     let e5_outcomes = e5run::OUTCOMES.with(|o| o.borrow().clone());
     let args = vec![prop.to_string(), "--tier".into(), tier.to_string()];
+    out.stats.insert("wall.e5_ms".into(), (out.wall_s * 1000.0) as u64);
     let o2 = supervise::run_sharded(&args, nshards(), Duration::from_secs(60), Duration::from_secs(cap), &[]);
+    out.stats.insert("wall.sessions_ms".into(), (o2.wall_s * 1000.0) as u64);
     out.absorb(o2);
     // real-time conformance: outcomes observed with the genuine thread_timer crate and OS
     // threads must be members of the outcome sets explored for the matching scenario
